@@ -592,6 +592,9 @@ func sigApply(op string, raw json.RawMessage) interface{} {
 	if err := json.Unmarshal(raw, &a); err != nil {
 		panic(err)
 	}
+	if op == "replay" {
+		return sigReplay(raw)
+	}
 	if op != "command" {
 		panic("verif: unknown op " + op)
 	}
@@ -642,31 +645,48 @@ func sigApply(op string, raw json.RawMessage) interface{} {
 			unitID = "nosuchid"
 		}
 	}
+	return map[string]interface{}{"ok": sigCommand(vw, dir, a.Sub, a.WorkType, a.Node, unitID, a.Conn, withTok)}
+}
+
+// the literal work-type names of the "near-*" classes: names that differ from a registered name only by
+// surrounding white space or letter case — all of them unknown work types
+var sigNearNames = map[string]string{
+	"near-trail": "verifying ", "near-lead": " verifying", "near-nl": "verifying\n", "near-upper": "VERIFYING", "near-plain-tab": "plain\t",
+}
+
+// sigCommand issues one work command and observes what it did
+func sigCommand(vw *verifWorld, dir string, sub, workType, nodeName, unitID, conn string,
+	withTok func(map[string]interface{}) map[string]interface{},
+) map[string]interface{} {
 	before := vw.w.ListKnownUnitIDs()
 	startedBefore, cancelledBefore := verifStarted, verifCancelled
 	var cfg map[string]interface{}
-	switch a.Sub {
+	switch sub {
 	case "submit":
-		wt := a.WorkType
-		node := a.Node
+		wt := workType
+		node := nodeName
 		if node == "" {
 			node = vw.nc.NodeID()
 		}
 		cfg = map[string]interface{}{"command": "work", "subcommand": "submit", "node": node, "worktype": wt}
-		switch a.WorkType {
+		switch workType {
 		case "remote-signed":
 			cfg["node"], cfg["worktype"], cfg["signwork"] = "far-away", "remote", "true"
 		case "remote-unsigned":
 			cfg["node"], cfg["worktype"] = "far-away", "remote"
 		case "unknown":
 			cfg["worktype"] = "no-such-type"
+		default:
+			if lit, ok := sigNearNames[workType]; ok {
+				cfg["worktype"] = lit
+			}
 		}
 	case "results":
 		cfg = map[string]interface{}{"command": "work", "subcommand": "results", "unitid": unitID, "startpos": float64(0)}
 	default:
-		cfg = map[string]interface{}{"command": "work", "subcommand": a.Sub, "unitid": unitID}
+		cfg = map[string]interface{}{"command": "work", "subcommand": sub, "unitid": unitID}
 	}
-	res, cerr, cfo := vw.command(withTok(cfg), a.Conn, "payload")
+	_, cerr, cfo := vw.command(withTok(cfg), conn, "payload")
 	after := vw.w.ListKnownUnitIDs()
 	_, statErr := os.Stat(path.Join(dir, "verif-node", unitID))
 	state := ""
@@ -697,8 +717,52 @@ func sigApply(op string, raw json.RawMessage) interface{} {
 			out["why"] = "other"
 		}
 	}
-	_ = res
-	return map[string]interface{}{"ok": out}
+	return out
+}
+
+// ---- replay: a token that was valid when it was first used is presented again after it has expired
+
+type sigReplayArgs struct {
+	First  string `json:"first"`  // gated command sent while the token is valid
+	Second string `json:"second"` // gated command sent with the same token after its expiry
+	Conn   string `json:"conn"`
+}
+
+func sigReplay(raw json.RawMessage) interface{} {
+	var a sigReplayArgs
+	if err := json.Unmarshal(raw, &a); err != nil {
+		panic(err)
+	}
+	sigSetup()
+	dir, err := os.MkdirTemp("", "verif-sig")
+	if err != nil {
+		panic(err)
+	}
+	defer os.RemoveAll(dir)
+	vw := verifNewWorld(dir)
+	defer vw.close()
+	vw.w.VerifyingKey = sigPubFile
+	_ = vw.w.RegisterWorker("verifying", verifNewUnit, true)
+	verifStarted, verifCancelled = 0, 0
+	res, err, _ := vw.command(map[string]interface{}{"command": "work", "subcommand": "submit", "node": vw.nc.NodeID(), "worktype": "verifying"}, "unix", "some input")
+	if err != nil && !IsPending(err) {
+		return map[string]interface{}{"err": "setup: " + err.Error()}
+	}
+	unitID, _ := res["unitid"].(string)
+	_ = os.WriteFile(path.Join(dir, "verif-node", unitID, "stdout"), []byte("OUTPUT-OF-"+unitID), 0o600)
+	// expiry times have a granularity of one second: the token is good for at least one second from now
+	exp := time.Now().Add(2 * time.Second).Truncate(time.Second)
+	tok, err := jwt.NewWithClaims(jwt.SigningMethodRS512,
+		&jwt.RegisteredClaims{ExpiresAt: jwt.NewNumericDate(exp), Audience: []string{vw.nc.NodeID()}}).SignedString(sigKey)
+	if err != nil {
+		panic(err)
+	}
+	withTok := func(c map[string]interface{}) map[string]interface{} { c["signature"] = tok; return c }
+	first := sigCommand(vw, dir, a.First, "verifying", "", unitID, a.Conn, withTok)
+	firstInTime := time.Now().Before(exp)
+	time.Sleep(time.Until(exp.Add(1200 * time.Millisecond)))
+	second := sigCommand(vw, dir, a.Second, "verifying", "", unitID, a.Conn, withTok)
+	return map[string]interface{}{"ok": map[string]interface{}{"first": first, "second": second, "first_in_time": firstInTime}}
 }
 
 func sigGen(v *verifRun) {
@@ -731,6 +795,22 @@ func sigGen(v *verifRun) {
 			a.Node = nodes[v.rng.Intn(len(nodes))]
 		}
 		v.do(sigApply, "command", a)
+	}
+	// work-type names that differ from a registered one only by white space or case: unknown types, whatever the token
+	for _, name := range []string{"near-lead", "near-nl", "near-plain-tab", "near-trail", "near-upper"} {
+		for _, tk := range []string{"absent", "valid", "expired"} {
+			v.do(sigApply, "command", sigArgs{Sub: "submit", Conn: conns[1+v.rng.Intn(2)], WorkType: name, Token: tk, KeySet: true})
+		}
+	}
+	// a token replayed after its expiry
+	pairs := [][2]string{{"results", "release"}, {"submit", "submit"}, {"cancel", "force-release"}, {"results", "cancel"}, {"submit", "results"}}
+	reps := 2
+	if v.n > 1000 {
+		reps = 10
+	}
+	for i := 0; i < reps; i++ {
+		pr := pairs[i%len(pairs)]
+		v.do(sigApply, "replay", sigReplayArgs{First: pr[0], Second: pr[1], Conn: conns[1+v.rng.Intn(2)]})
 	}
 }
 
